@@ -3,4 +3,5 @@ pub mod ast;
 pub mod builtins;
 pub mod interp;
 pub mod ops;
+pub mod recogniser;
 pub mod value;
